@@ -1,6 +1,7 @@
 package p16
 
 import (
+	"strconv"
 	"context"
 	"encoding/json"
 	"fmt"
@@ -42,7 +43,8 @@ type twinReq struct {
 }
 
 type faultPlan struct {
-	Kind   string `json:"kind,omitempty"` // "" | set | commit | src-open | proc-open | stop-flush
+	Kind   string `json:"kind,omitempty"` // "" | set | commit | src-open | proc-open | stop-flush | proc-slow-open
+	Ms     int    `json:"ms,omitempty"`   // proc-slow-open: how long the Open takes
 	Index  int    `json:"index,omitempty"`
 	Prefix string `json:"prefix,omitempty"` // key prefix of the store writes the set fault counts
 	Comp   string `json:"comp,omitempty"`   // the plugin whose Open fails (documentation only, the script is in Lab)
@@ -626,6 +628,18 @@ func runC16(cs *c16Case, pick func(n int) int) *result {
 	var eng provisioning.LifecycleService = w.V1
 	if c.Engine == "v2" {
 		eng = w.V2
+	}
+	if cs.Fault.Kind == "proc-slow-open" {
+		// the Open of one new processor generation takes longer than any time-bounded fall-back
+		// around the swap; it succeeds in the end
+		slowComp, slowGen, slowFor := cs.Fault.Comp, strconv.Itoa(cs.Fault.Index), time.Duration(cs.Fault.Ms)*time.Millisecond
+		w.Hooks.OnProcOpen = func(comp, gen string) {
+			if comp == slowComp && gen == slowGen {
+				w.Log.Add(lab.Event{Kind: lab.EvNote, Comp: comp, Src: -1, Seq: -1, Gen: gen, Info: "slow-open begins"})
+				time.Sleep(slowFor)
+				w.Log.Add(lab.Event{Kind: lab.EvNote, Comp: comp, Src: -1, Seq: -1, Gen: gen, Info: "slow-open ends"})
+			}
+		}
 	}
 	life := &lifeAdapter{w: w, eng: eng, failFlush: cs.Fault.Kind == "stop-flush"}
 	prov := provisioning.NewService(pdb, w.Logger, w.Pipelines, w.Connectors, w.Processors, w.Plugins, life, "")
